@@ -708,7 +708,7 @@ impl Forge {
         }
         let rs: Vec<Fr> = (0..m).map(|_| G1::generate_scalar(aux)).collect();
         let coms = vals.iter().zip(rs.iter()).map(|(v, rr)| pr.keys.hide(&Value::<G1>::new(*v), &Randomness::new(*rr))).collect();
-        Forge { n, m, ver: 1 + id % 2, tk: (id / 2) % 2, pr, G, H, vals, rs, coms, aL }
+        { let _ = id; Forge { n, m, ver: 1 + r.below(2), tk: r.below(2), pr, G, H, vals, rs, coms, aL } }
     }
     fn prelude(&self, t: &mut Rec) {
         if self.ver == 2 {
@@ -830,8 +830,9 @@ fn honest_ipa(f: &Forge, t: &mut Rec, y: &Fr, w: &Fr, l: &[Fr], r: &[Fr]) -> ipp
     ipp::prove_inner_product_with_scalars(t, &f.G, &f.H, &hps, &Q, l, r).expect("ipa")
 }
 
-/// T_2 not bound by x: out-of-range value, honest l(x), r(x); T_2 solved from the first equation
-fn forge_t2(f: &Forge, aux: &mut StdRng) {
+/// T_2 (or T_1 when `first`) not bound by x: out-of-range value, honest l(x), r(x); the unbound
+/// commitment is solved from the first equation
+fn forge_t(f: &Forge, aux: &mut StdRng, first: bool) {
     let (B, Bt) = (f.pr.keys.g, f.pr.keys.h); let nm = f.nm();
     let aL = f.aL.clone(); let aR: Vec<Fr> = aL.iter().map(|a| fsub(a, &fr(1))).collect();
     let sL: Vec<Fr> = (0..nm).map(|_| rnd(aux)).collect(); let sR: Vec<Fr> = (0..nm).map(|_| rnd(aux)).collect();
@@ -844,14 +845,16 @@ fn forge_t2(f: &Forge, aux: &mut StdRng) {
     let (l0, r0, r1) = f.lr_coeffs(&aL, &aR, &sR, &y, &z);
     let (t0, t2) = (dotf(&l0, &r0), dotf(&sL, &r1)); let t1 = fadd(&dotf(&l0, &r1), &dotf(&sL, &r0));
     let (t1t, t2t) = (rnd(aux), rnd(aux));
-    let T1 = mexp(&[B, Bt], &[t1, t1t]);
-    t.append_message(b"T1", &T1); t.append_message(b"T2", &T1);   // placeholder in T2's position
+    let T1h = mexp(&[B, Bt], &[t1, t1t]); let T2h = mexp(&[B, Bt], &[t2, t2t]);
+    if first { t.append_message(b"T1", &S); t.append_message(b"T2", &T2h); }     // placeholder in T1's position
+    else { t.append_message(b"T1", &T1h); t.append_message(b"T2", &T1h); }       // placeholder in T2's position
     let x: Fr = t.extract_challenge_scalar::<G1>(b"x"); let xx = fmul(&x, &x);
     let tx = fadd(&t0, &fadd(&fmul(&t1, &x), &fmul(&t2, &xx)));
     let txt = fadd(&f.cvr(&z), &fadd(&fmul(&t1t, &x), &fmul(&t2t, &xx)));
-    // x^2 T2 = tx B + txt Bt - Vterm - delta B - x T1
-    let num = mexp(&[B, Bt, T1], &[fsub(&tx, &f.delta(&y, &z)), txt, fneg(&x)]).minus_point(&f.vterm(&z));
-    let T2 = num.mul_by_scalar(&finv(&xx));
+    // x T1 + x^2 T2 = tx B + txt Bt - Vterm - delta B : solve for the unbound one
+    let base = mexp(&[B, Bt], &[fsub(&tx, &f.delta(&y, &z)), txt]).minus_point(&f.vterm(&z));
+    let (T1, T2) = if first { (base.minus_point(&T2h.mul_by_scalar(&xx)).mul_by_scalar(&finv(&x)), T2h) }
+                   else { (T1h, base.minus_point(&T1h.mul_by_scalar(&x)).mul_by_scalar(&finv(&xx))) };
     let et = fadd(&at, &fmul(&st, &x));
     t.append_message(b"tx", &tx); t.append_message(b"tx_tilde", &txt); t.append_message(b"e_tilde", &et);
     let w: Fr = t.extract_challenge_scalar::<G1>(b"w");
@@ -860,7 +863,7 @@ fn forge_t2(f: &Forge, aux: &mut StdRng) {
     let ip = honest_ipa(f, &mut t, &y, &w, &l, &r);
     let p = Parts { pts: vec![A, S, T1, T2], scs: vec![tx, txt, et], lr: ip.lr_vec.clone(), a: ip.a, b: ip.b };
     let sim = f.eqs_hold(&p, &y, &z, &x, &w, &t.us());
-    report("T2_unbound", f, &p, sim);
+    report(if first { "T1_unbound" } else { "T2_unbound" }, f, &p, sim);
 }
 
 /// A not bound by y, z: a_R adjusted after seeing y, z so that t_0 has the value the verifier expects
@@ -964,9 +967,9 @@ fn attacks(seed: u64, count: u64) {
     for rep in 0..count {
         for &(n, m) in shapes.iter() {
             if rep > 0 && n * m > 16 { continue; }
-            for kind in 0..4 {
+            for kind in 0..5 {
                 let f = Forge::new(&mut r, &mut aux, n, m, id);
-                let res = guarded(|| match kind { 0 => forge_last_r(&f, &mut aux), 1 => forge_t2(&f, &mut aux), 2 => forge_a(&f, &mut aux), _ => forge_s(&f, &mut aux) });
+                let res = guarded(|| match kind { 0 => forge_last_r(&f, &mut aux), 1 => forge_t(&f, &mut aux, false), 2 => forge_t(&f, &mut aux, true), 3 => forge_a(&f, &mut aux), _ => forge_s(&f, &mut aux) });
                 if let Err(e) = res { println!("{}", json!({"k": "forge", "kind": kind, "n": n, "m": m, "error": e})); }
                 id += 1;
             }
